@@ -496,8 +496,17 @@ func vrOutboundCanon(o vrOutbound) string {
 func vrGenProgram(t *rapid.T, o vrOpts) vrProgram {
 	var p vrProgram
 	ng := rapid.IntRange(1, 4).Draw(t, "ngroups")
-	for i := 0; i < ng; i++ {
-		p.Groups = append(p.Groups, fmt.Sprintf("g%d", i))
+	// Group names: besides plain g0..g3, names that begin with letters of "must_"
+	// (a must_ prefix must be cut off as a prefix, not as a character set), contain
+	// '_' or are short; never "rules" (must_rules is a keyword), "direct" or "block".
+	if rapid.Bool().Draw(t, "plain_group_names") {
+		for i := 0; i < ng; i++ {
+			p.Groups = append(p.Groups, fmt.Sprintf("g%d", i))
+		}
+	} else {
+		pool := []string{"g0", "g1", "us_proxy", "sg", "must", "t_", "mm", "_x", "s1", "u", "tt_proxy", "mustard"}
+		perm := rapid.Permutation(pool).Draw(t, "group_names")
+		p.Groups = append(p.Groups, perm[:ng]...)
 	}
 	p.Vocab = vrGenVocab(t, &p)
 	maxRules := o.MaxRules
